@@ -27,7 +27,7 @@ THEOREMS = ["AurelVerif.C18." + t for t in (
     "parse_format_key", "parse_format_file", "parse_format_checkpoint", "parse_h5file_ignores_directory",
     "print_parse_roundtrip", "print_parse_linebreak_hypothesis_is_necessary", "restarts_done_spec",
     "iterations_call_spec", "incremental_eq_fresh", "iterations_idempotent", "stable_criterion", "stable_prefix",
-    "scan_level_faithful", "content_cached_eq_scanned", "content_key_roundtrip",
+    "scan_level_faithful", "scan_level_only_own_keys", "discover_exact", "content_cached_eq_scanned", "content_key_roundtrip",
     "overall_faithful", "merge_never_raises", "merge_step_faithful",
     "overall_no_singles_independent_of_membership", "overall_single_inside_range",
     "overall_equal_stride_gap_witness", "exS_stable", "exS0_stable")]
@@ -236,8 +236,10 @@ def gen_sim(ctx, adversarial):
     nres = rng.randint(1, 5)
     layout = rng.choice(["onefile", "proc"])
     grouped = rng.random() < 0.5
-    nlev = rng.randint(1, 3)
+    nlev = rng.choice([1, 2, 3, 1, 2, 3, 1, 2, 3, 11, 12])
     nchunks = rng.choice([0, 0, 1, 2, 3, 11]) if layout == "onefile" else rng.choice([1, 2, 3, 11])
+    if nlev > 3:                       # many refinement levels (rl >= 10): keep the files small
+        nchunks = min(nchunks, 2)
     with_m = rng.random() < 0.3
     xyz = rng.choice([0, 0, 0, 1, 2]) if layout == "proc" else rng.choice([0, 0, 1])
     pool_s = [v for v in SINGLE_VARS]
@@ -249,7 +251,7 @@ def gen_sim(ctx, adversarial):
     else:
         variables = (pool_s[:rng.randint(1, 4)], [])
     restarts = []
-    s0 = rng.choice([1, 2, 3, 4, 8, 16, 128]) * 2 ** (nlev - 1)
+    s0 = rng.choice([1, 2, 3, 4, 8, 16, 128]) * 2 ** (min(nlev, 4) - 1)
     strides = [s0]
     for l in range(1, nlev):
         strides.append(max(1, strides[-1] // rng.choice([1, 2])))
@@ -275,9 +277,19 @@ def gen_sim(ctx, adversarial):
     numbers = list(range(nres))
     if rng.random() < 0.15:
         numbers = sorted(rng.sample(range(0, 12), nres))
+    # directory entries next to the restart directories that are NOT restarts
+    decoys = []
+    if rng.random() < 0.5:
+        decoys = rng.sample(DECOYS, rng.randint(1, 4))
     return {"name": name, "layout": layout, "nchunks": nchunks, "with_m": with_m, "xyz": xyz,
+            "decoys": decoys, "active_link": rng.random() < 0.4,
             "with_attr": rng.random() < 0.8, "restarts": restarts, "numbers": numbers,
             "adversarial": adversarial, "irregular": irregular}
+
+
+# entries of a simulation directory that must not be taken for restarts
+DECOYS = ["SIMFACTORY", "output-abc", "output-", "output-0001.bak", "xoutput-0003", "output-0002-old",
+          "log.txt", "output-0007-active", "output-3x", "Output-0004", "output--005", "output-0009 "]
 
 
 class Tree:
@@ -293,6 +305,16 @@ class Tree:
         self.truth = {}
         self.added = 0
         self.lines = ["sim %s %s" % (enc(self.simpath), enc(self.simname))]
+        for d in plan.get("decoys", []):
+            p = os.path.join(self.simdir, d)
+            if "." in d:
+                open(p, "w").close()
+            else:
+                os.makedirs(os.path.join(p, self.simname), exist_ok=True)
+        self.active = None
+
+    def entries_line(self):
+        return "entries %s" % encl(os.listdir(self.simdir))
 
     def rdir(self, nbr):
         return os.path.join(self.simdir, "output-%04d" % nbr, self.simname)
@@ -314,6 +336,13 @@ class Tree:
             self.truth[nbr] = write_restart(self.ctx.rng, d, plan["layout"], r["levels"], r["variables"],
                                             plan["nchunks"], plan["with_m"], plan["with_attr"],
                                             r["checkpoints"], plan["xyz"])
+        if plan.get("active_link"):
+            # simfactory keeps a symbolic link output-NNNN-active to the running restart
+            if self.active and os.path.islink(self.active):
+                os.remove(self.active)
+            self.active = os.path.join(self.simdir, "output-%04d-active" % nbr)
+            if not os.path.lexists(self.active):
+                os.symlink("output-%04d" % nbr, self.active)
         out = ["restart %d" % nbr]
         for fn in os.listdir(d):
             keys, ho = [], []
@@ -357,6 +386,8 @@ def run_sequence(ctx, reading, tree, nops, ops=None):
         for l in new:
             lines.append(l)
             exp.append("ok")
+        lines.append(tree.entries_line())
+        exp.append("ok")
 
     if ops is None:
         ops = []
